@@ -92,8 +92,12 @@ def run(ctx):
         cfg = (f"SPECIFICATION SpecH\nCONSTANTS N = 2\n SameDtype = {'TRUE' if same else 'FALSE'}\n MaxVer = 2\n MaxOps = 6\n"
                "INVARIANT Emit\nCHECK_DEADLOCK FALSE\n")
         sim = tlc.run("QuantizedSim", EMIT, cfg, tag="GROWTH-sim", simulate=f"num={20 if quick else 200}", depth=8, seed=ctx.seed + 5, workers=1, timeout=600)
+        # bounded-exhaustive: EVERY behaviour of 3 (4) operations (the history variable makes the state graph a tree)
+        cfg3 = cfg.replace("MaxOps = 6", f"MaxOps = {3 if quick else 4}")
+        allb = tlc.run("QuantizedSim", EMIT, cfg3, tag="GROWTH-enum", workers=16, timeout=1200, memqueue=True)
+        ctx.add("bounded_exhaustive_behaviours", sum(1 for p in allb.printed if p.startswith('<<"BEH"')))
         behs = []
-        for p in sim.printed:
+        for p in sim.printed + allb.printed:
             if p.startswith('<<"BEH"'):
                 try:
                     behs.append(json.loads(json.loads(p[len('<<"BEH", '):-2].strip())))
